@@ -181,6 +181,20 @@ def run_check(prop, tier, verif_seed, workers=None, n_override=None, repo=None, 
             stats["viol"].append(res)
 
     with Pool(workers, repo=repo) as pool:
+        # ---- regression replays of repaired defects: a fixed entry suppresses nothing ---
+        regress = []
+        fixed_dir = os.path.join(REPLAYS, "fixed")
+        if os.path.isdir(fixed_dir):
+            for fn in sorted(os.listdir(fixed_dir)):
+                if fn.startswith(prop + "-") and fn.endswith(".json"):
+                    with open(os.path.join(fixed_dir, fn)) as f:
+                        rp = json.load(f)
+                    rr = pool.run_one({"id": fn, "engine": eng.NAME, "func": "execute", "doc": rp["doc"], "wall_cap": 120})
+                    stats["probes"]["fixed_replays_run"] = stats["probes"].get("fixed_replays_run", 0) + 1
+                    if "harness_error" in rr:
+                        stats["harness_errors"].append((fn, "fixed replay: " + rr["harness_error"], rr.get("tb", "")))
+                    elif rr.get("violations"):
+                        regress.append((os.path.join(fixed_dir, fn), rr["violations"][0]))
         jobs = list(eng.jobs(prop, verif_seed, n, tier))
         for job, res in pool.imap(jobs):
             if "harness_error" in res:
@@ -243,6 +257,10 @@ def run_check(prop, tier, verif_seed, workers=None, n_override=None, repo=None, 
                 path = write_replay(prop, rr["doc"], vclass, rr["digest"], tag)
                 reported.append((vclass, path, v0, feats))
                 exit_code = 1
+        for path, v0 in regress:
+            log("VIOLATION property=%s replay=%s" % (prop, path))
+            log("  a repaired defect is back: class=%s detail=%s" % (v0["class"], json.dumps(v0.get("detail"), default=str)[:400]))
+            exit_code = 1
         for e in known_hits.values():
             log("KNOWN-FINDING: property=%s %s" % (prop, e["what"]))
         for vclass, path, v0, feats in reported:
@@ -295,7 +313,7 @@ def run_check(prop, tier, verif_seed, workers=None, n_override=None, repo=None, 
         },
         "assumptions": spec["assumptions"],
         "wall_s": round(wall, 2),
-        "violations": len(reported),
+        "violations": len(reported) + len(regress),
     }
     os.makedirs(EVIDENCE, exist_ok=True)
     with open(os.path.join(EVIDENCE, "%s.json" % prop), "w") as f:
